@@ -100,6 +100,7 @@ class Ctx:
         self.solver = z3.Solver()
         self.solver.set("timeout", timeout_ms)
         self.timeout_ms = timeout_ms
+        self.feas_timeout_ms = 400
         self.decisions = list(decisions)
         self.pos = 0
         self.alternatives = []
@@ -161,7 +162,12 @@ class Ctx:
         return r
 
     def feasible(self, c):
-        return self._check(c) != z3.unsat
+        # feasibility is only a pruning heuristic: a short budget, 'unknown' counts as feasible
+        self.solver.set("timeout", self.feas_timeout_ms)
+        try:
+            return self._check(c) != z3.unsat
+        finally:
+            self.solver.set("timeout", self.timeout_ms)
 
     def choose(self, values, name="choice"):
         """Non-deterministic choice among concrete values (forks)."""
@@ -650,7 +656,8 @@ class Interp:
             return None
 
     def inv_ns(self, fr, k=None, old=None):
-        d = dict(fr.env)
+        d = dict(getattr(self, "ghosts", {}))
+        d.update(fr.env)
         d["old"] = NS(fr.entry)
         if k is not None:
             d["k"] = k
